@@ -33,6 +33,14 @@ JiraGate(c, key, issue, F, E) ==
   ELSE IF IsHotfixTarget(E) THEN (IF E \subseteq F THEN "pass" ELSE "IncorrectFixVersion")
   ELSE IF Checked(F) = E THEN "pass" ELSE "IncorrectFixVersion"
 
+(* a bypassed branch prefix: the WHOLE prefix of the source branch is a member of bypass_prefixes.  The   *)
+(* near misses (proper prefix, extension, other case, other prefix, one letter, suffix) are not members:  *)
+(* every non-bypassed row is also executed with bypass_prefixes = NearMiss (driver: 'near-prefix').       *)
+SrcPrefix == "bugfix"
+NearMiss == {"bug", "bugfixes", "BUGFIX", "feature", "b", "ugfix"}
+PrefixBypassed(prefix, L) == prefix \in L
+ASSUME PrefixBypassed(SrcPrefix, {"bugfix"}) /\ ~ PrefixBypassed(SrcPrefix, NearMiss)
+
 Configs == [configured : Bools, bypass : Bools, disableVer : Bools, typesConfigured : Bools]
 RECURSIVE Pow(_, _)
 Pow(b, e) == IF e = 0 THEN 1 ELSE b * Pow(b, e - 1)
